@@ -33,7 +33,7 @@ func (Engine) Info(prop string) core.Info {
 	case "C10":
 		return core.Info{
 			Level:        "exploration",
-			Rule:         "one plan = one history of mailbox operations (AddOut, Prepare, GetOutbound for none/one/two forwarders, SetSent, SetDeferred, GetInboundAnswer, ProcessInbound, SetUnread, restart with a fresh DirHandler on the same disk) on the real DirHandler over the simulated disk, in normal or send-only mode, over 6 MIDs and 4 addresses in several spellings; after every operation the return value and all four folder listings and counts are compared with an executable reference model. The first run indices enumerate every sequence up to length 3 (quick) / 4 (thorough) over a 16-operation alphabet, in both modes; the rest are random histories of 10-60 (quick) / 10-300 (thorough) operations. Non-trivial: at least one message was stored and at least one query (GetOutbound or GetInboundAnswer) was compared. Distinct: distinct event-log hash (operations, results, folder contents).",
+			Rule:         "one plan = one history of mailbox operations (AddOut, Prepare, GetOutbound for none/one/two forwarders, SetSent, SetDeferred, GetInboundAnswer, ProcessInbound, SetUnread, restart with a fresh DirHandler on the same disk) on the real DirHandler over the simulated disk, in normal or send-only mode, over 6 MIDs and 4 addresses in several spellings; after every operation the return value and all four folder listings and counts are compared with an executable reference model. The first run indices enumerate every sequence up to length 3 (quick) / 4 (thorough) over a 16-operation alphabet, in both modes; the rest are random histories of 10-60 (quick) / 10-300 (thorough) operations. Non-trivial: at least one message was stored and at least one query (GetOutbound or GetInboundAnswer) was compared. Distinct: distinct event-log hash (operations, results, folder contents). SetUnread is also repeated with changing flags on one and the same message object.",
 			Real:         realCode,
 			Stub:         stubCode,
 			Assumptions:  assume,
@@ -44,7 +44,7 @@ func (Engine) Info(prop string) core.Info {
 	case "C11":
 		return core.Info{
 			Level:        "fault_enumeration",
-			Rule:         "one plan = a seeded mailbox state (0-8 messages in in/out/sent, read and unread) plus one operation (ProcessInbound, AddOut, SetSent, SetUnread true/false, Prepare on an empty tree). A fault-free pilot records the file-system calls of the operation; then one execution per crash point: before and after every call and after every prefix length of every write (all prefixes up to 8 KiB per write, boundaries and a seeded sample above), and one execution per ENOSPC short-write length (boundaries and a seeded sample). After each, a fresh DirHandler + Prepare runs on the surviving tree and the recovery invariants are evaluated. Evaluations = executions. Non-trivial plan: at least one fault fired. Distinct: hash of (fault, surviving tree, recovery observations), at most 64 evenly spaced executions per plan are listed to bound the evidence size, so the distinct count is a lower bound.",
+			Rule:         "one plan = a seeded mailbox state (0-8 messages in in/out/sent, read and unread) plus one operation (ProcessInbound, AddOut, SetSent, SetUnread true/false, Prepare on an empty tree). A fault-free pilot records the file-system calls of the operation; then one execution per crash point: before and after every call and after every prefix length of every write (all prefixes up to 8 KiB per write, boundaries and a seeded sample above), and one execution per ENOSPC short-write length (boundaries and a seeded sample). After each, a fresh DirHandler + Prepare runs on the surviving tree and the recovery invariants are evaluated. Evaluations = executions. Non-trivial plan: at least one fault fired. Distinct: hash of (fault, surviving tree, recovery observations), at most 64 evenly spaced executions per plan are listed to bound the evidence size, so the distinct count is a lower bound. 35 % of the plans start from a mailbox in which an earlier store of another message died at a chosen call or inside a write (its leftovers are part of the contents); some stored files carry a foreign spelling of the extension (.B2F); every message the set-up stored must be listed after a plain restart.",
 			Real:         realCode,
 			Stub:         stubCode,
 			Assumptions:  append([]string{"crash model = process death: completed calls survive, nothing is reordered, a write is torn at a byte (no power-loss reordering)"}, assume...),
@@ -55,7 +55,7 @@ func (Engine) Info(prop string) core.Info {
 	case "C12":
 		return core.Info{
 			Level:        "exploration",
-			Rule:         "one plan = 1-10 direct calls (ProcessInbound with a hostile Mid header, GetInboundAnswer for a proposal with a hostile MID, SetSent, SetDeferred) on a DirHandler rooted at /sandbox/mbox on a disk that also holds decoys (/sandbox/mbox-evil/, /sandbox/victim.b2f, /sandbox/outside.b2f, /etc/passwd ...). MIDs are built from path separators, dot-dot segments, absolute paths, empty, 300-byte, non-ASCII, NUL, trailing dots, and benign controls. Every file-system call is logged; a call that changed the disk and names a cleaned path outside /sandbox/mbox is a violation. Non-trivial: at least one hostile MID reached a handler call that issued a file-system call. This is the direct-call arm; the end-to-end arm through a Session lives in fbbsim.",
+			Rule:         "one plan = 1-10 direct calls (ProcessInbound with a hostile Mid header, GetInboundAnswer for a proposal with a hostile MID, SetSent, SetDeferred) on a DirHandler rooted at /sandbox/mbox on a disk that also holds decoys (/sandbox/mbox-evil/, /sandbox/victim.b2f, /sandbox/outside.b2f, /etc/passwd ...). MIDs are built from path separators, dot-dot segments, absolute paths, empty, 300-byte, non-ASCII, NUL, trailing dots, and benign controls. Every file-system call is logged; a call that changed the disk and names a cleaned path outside /sandbox/mbox is a violation. Non-trivial: at least one hostile MID reached a handler call that issued a file-system call. This is the direct-call arm; the end-to-end arm through a Session lives in fbbsim. Inbound messages also carry remote-chosen header fields (X-FilePath and relatives) with path values; MIDs include runs of multi-byte characters in front of a traversal.",
 			Real:         realCode,
 			Stub:         stubCode,
 			Assumptions:  assume,
